@@ -75,10 +75,15 @@ Definition m_stack_dtype (d : dty) : res dty :=
 Definition m_flip (d : dty) (n : Z) (c : list Z) : res tarr :=
   r <- s_flip_map n (mkT d c) ;; Ok (assign_into d r).
 
-(* ---------------------------------------------------------------- _coo/common.roll, scalar shift, one axis
-   mshape = max(a.shape); n = a.shape[ax] *)
-Definition m_roll (d : dty) (mshape n sh : Z) (c : list Z) : res tarr :=
-  if negb (can_store d (mshape + sh)) then guard_exc g_roll_guard
+(* ---------------------------------------------------------------- _coo/common.roll
+   the per-axis capacity test of the guard (generated): the shift and extent+shift are storable *)
+Definition roll_axis_ok (d : dty) (n sh : Z) : res bool :=
+  rmap truthy (g_roll_axis_ok (dty_pyv d) (VInt sh) (VInt n)).
+
+(* scalar shift, one axis; n = a.shape[ax].  The scalar became an element of np.full(...) (int64) *)
+Definition m_roll (d : dty) (n sh : Z) (c : list Z) : res tarr :=
+  ok <- roll_axis_ok d n sh ;;
+  if negb ok then guard_exc g_roll_guard
   else
     match (t <- (if s_roll_scalar_shift_is_np64 then s_roll_add_np else s_roll_add_py) (mkT d c) sh ;;
            s_roll_mod t n) with
@@ -86,7 +91,13 @@ Definition m_roll (d : dty) (mshape n sh : Z) (c : list Z) : res tarr :=
     | r => r
     end.
 
-(* tuple of shifts as long as the tuple of axes: Python ints; the guard sees max(shape ++ shifts) *)
+(* tuple of shifts as long as the tuple of axes: the shifts stay Python ints.
+   rows: (extent, shift, coordinate row) per rolled axis *)
+Fixpoint roll_all_ok (d : dty) (rows : list (Z * Z * list Z)) : res bool :=
+  match rows with
+  | [] => Ok true
+  | (n, sh, _) :: r => ok <- roll_axis_ok d n sh ;; if ok then roll_all_ok d r else Ok false
+  end.
 Fixpoint roll_rows (d : dty) (rows : list (Z * Z * list Z)) : res (list tarr) :=
   match rows with
   | [] => Ok []
@@ -95,8 +106,9 @@ Fixpoint roll_rows (d : dty) (rows : list (Z * Z * list Z)) : res (list tarr) :=
       rest <- roll_rows d r ;;
       Ok (x :: rest)
   end.
-Definition m_roll_tuple (d : dty) (gmax : Z) (rows : list (Z * Z * list Z)) : res (list tarr) :=
-  if negb (can_store d gmax) then guard_exc g_roll_guard
+Definition m_roll_tuple (d : dty) (rows : list (Z * Z * list Z)) : res (list tarr) :=
+  ok <- roll_all_ok d rows ;;
+  if negb ok then guard_exc g_roll_guard
   else match roll_rows d rows with
        | Raise TypeError => Raise OtherError      (* not reachable with Python-int shifts *)
        | r => r
